@@ -74,5 +74,7 @@ def check(ctx, rep):
     normr.norm_12(ctx, rep)      # None-able indentation attributes (tab configuration)
     from ..rules import normr as _n11
     _n11.norm_11(ctx, rep)      # prefix part columns: first-line state does not leak into later lines
+    from ..rules import normr as _n13
+    _n13.norm_13(ctx, rep)      # a prefix is split with a start position computed from its own leaf
     rep.note('Not decided: positions inside the file, non-negative columns, equality of issue lists across fresh / '
              'incremental / cached trees.')
